@@ -20,9 +20,24 @@ def gen_decls(r, info):
     return ''.join(out)
 
 
-def stripped_document(xsl_with, xml):
+def add_xml_space(r, xml):
+    """xml:space="preserve" / "default" on some start tags (XSLT 3.4: a preserved ancestor keeps the text node whatever the declarations say)"""
+    tags = [m for m in re.finditer(r'<([A-Za-z_][\w.\-]*(?::[\w.\-]+)?)((?:\s[^<>]*?)?)(/?)>', xml) if 'xml:space' not in m.group(2)]
+    if not tags:
+        return xml
+    picks = sorted(r.sample(tags, min(len(tags), r.choice([1, 2, 3]))), key=lambda m: -m.start())
+    for m in picks:
+        xml = xml[:m.end(2)] + ' xml:space="%s"' % r.choice(['preserve', 'preserve', 'default']) + xml[m.end(2):]
+    try:
+        refxml.parse(xml)
+    except refxml.ParseError:
+        return re.sub(r' xml:space="[a-z]+"', '', xml)
+    return xml
+
+
+def stripped_document(xsl_with, xml, loader=None):
     """D' = D minus the whitespace-only text nodes selected by the declarations of xsl_with"""
-    sheet = refxslt.Stylesheet(xsl_with)
+    sheet = refxslt.Stylesheet(xsl_with, loader)
     doc = refxml.parse(xml)
     before = sum(1 for n in walk(doc) if n.kind == refxml.TEXT)
     p = refxslt.Processor(sheet, doc)
@@ -49,17 +64,48 @@ def case(ctx, idx, res):
     if runner is None:
         runner = ctx.cache['runner'] = XC.Runner(ctx, 'plain')
     xml, info = gen_xml.gen_doc(r, size=r.choice([8, 15, 25, 40]), ws_heavy=True)
+    if r.random() < 0.3:
+        xml = add_xml_space(r, xml)
     decls = gen_decls(r, info)
+    imported = None
+    if r.random() < 0.35:
+        # part of the declarations lives in an imported (lower precedence) or included (same precedence) module
+        imported = (r.choice(['import', 'import', 'include']), gen_decls(r, info))
     g = gen_xslt.SGen(r, info, avoid=ctx.findings_avoid, max_templates=r.choice([4, 8]), body_depth=r.choice([2, 3, 3]))
     xsl_with = g.stylesheet(strip=decls)
     xsl_without = xsl_with.replace(decls, '', 1)
+    files_with, files_without = {}, {}
+    if imported:
+        how, idecls = imported
+        head_end = xsl_with.index('>') + 1
+        link = '<xsl:%s href="imp.xsl"/>' % how
+        xsl_with = xsl_with[:head_end] + link + xsl_with[head_end:]
+        xsl_without = xsl_without[:head_end] + link + xsl_without[head_end:]
+        files_with['imp.xsl'] = (gen_xslt.HEAD % '') + idecls + '</xsl:stylesheet>'
+        files_without['imp.xsl'] = (gen_xslt.HEAD % '') + '</xsl:stylesheet>'
+        decls = decls + ' + %s of %s' % (how, idecls)
     try:
-        xml_stripped, removed = stripped_document(xsl_with, xml)
+        xml_stripped, removed = stripped_document(xsl_with, xml, loader=lambda h: files_with.get(h))
     except (refxslt.XsltError, X.XPathSyntaxError, refxml.ParseError) as e:
         res.inconclusive.append('harness-exception: cannot compute D\': %s' % e)
         return
-    a = runner.transform(xsl_with, xml)
-    b = runner.transform(xsl_without, xml_stripped)
+
+    def run_files(main, files, doc):
+        if not files:
+            return runner.transform(main, doc)
+        d = os.path.join(ctx.workdir, 'c13')
+        os.makedirs(d, exist_ok=True)
+        for name, text in files.items():
+            open(os.path.join(d, name), 'w', encoding='utf-8').write(text)
+        mp = os.path.join(d, 'main.xsl')
+        open(mp, 'w', encoding='utf-8').write(main)
+        return runner.transform(None, doc, sty='file', xslpath=mp)
+    a = run_files(xsl_with, files_with, xml)
+    b = run_files(xsl_without, files_without, xml_stripped)
+    if imported:
+        res.count('with_' + imported[0])
+    if 'xml:space' in xml:
+        res.count('with_xml_space')
     res.count('pairs')
     res.count('whitespace_nodes_removed', removed)
     if removed:
@@ -82,6 +128,8 @@ def case(ctx, idx, res):
         return
 
     def differs(xs):
+        if imported:
+            return False
         try:
             xd, _ = stripped_document(xs, xml)
         except Exception:
@@ -94,12 +142,20 @@ def case(ctx, idx, res):
             return XC.output_tree(p.out) != XC.output_tree(q.out)
         except refxml.ParseError:
             return False
+    if imported:
+        d = refxml.first_diff(('root', ta), ('root', tb))
+        res.viol('differs|%s|%s%s' % (decls_class(decls), imported[0], '|xml:space' if 'xml:space' in xml else ''),
+                 'with %s the result differs from the result on the physically stripped document: %s' % (decls, (d or '')[:300]), dict(payload, files=files_with))
+        return
     mx = XC.shrink_xml(xsl_with, differs, budget=200, protect=lambda e: XC.protect_stylesheet(e) or (XC.is_xsl(e) and e.local in ('strip-space', 'preserve-space')))
     pa = runner.transform(mx, xml)
     xd, _ = stripped_document(mx, xml)
     pb = runner.transform(mx.replace(decls, '', 1), xd)
     d = refxml.first_diff(('root', XC.output_tree(pa.out)), ('root', XC.output_tree(pb.out)))
     payload['minimal_stylesheet'] = mx
+    if 'xml:space' in xml:
+        res.viol('differs|%s|xml:space' % decls_class(decls), 'with %s and xml:space attributes in the document the result differs from the result on the physically stripped document: %s\n    stylesheet: %s' % (decls, (d or '')[:300], mx[:800]), payload)
+        return
     res.viol('differs|%s|%s' % (decls_class(decls), classify(mx)), 'with %s the result differs from the result on the physically stripped document: %s\n    stylesheet: %s' % (decls, (d or '')[:300], mx[:800]), payload)
 
 
@@ -119,11 +175,11 @@ def main():
                 'observer stylesheets (all axes, text()/node() tests, position()/last(), count(), string values, keys, xsl:number, copy/copy-of, sort keys). '
                 'A case is one (declarations, stylesheet, document); non-trivial = at least one whitespace-only text node is selected for stripping; '
                 'distinct = distinct (declarations, set of instruction kinds used).')
-    chk.assumptions = ['documents carry no xml:space attributes', 'D\' is computed by the harness from the declarations (NameTest priority, last-wins)', 'both sides are run by the library; trees of the outputs are compared']
+    chk.assumptions = ['30% of the documents carry xml:space attributes (preserve / default), 35% of the cases put part of the declarations into an imported or included module', 'D\' is computed by the harness from the declarations (NameTest priority, last-wins)', 'both sides are run by the library; trees of the outputs are compared']
     chk.ensure('plain', 'xvdrv')
     n = 4000 if chk.tier == 'quick' else 150000
     chk.run_cases('c13', 'case', range(n))
-    chk.finish(min_nontrivial=100, required_stats=('agree', 'whitespace_nodes_removed'))
+    chk.finish(min_nontrivial=100, required_stats=('agree', 'whitespace_nodes_removed', 'with_import', 'with_xml_space'))
 
 
 if __name__ == '__main__':
